@@ -69,8 +69,8 @@ theorem cursorBox_covers {s : Screen} {c : Cursor} (hc : s.cursor = some c) {cx 
 
 /-! ### cursor pseudo-rectangles -/
 
-theorem cursorShapeRect_scr {v : Variant} {s s' : Screen} {r : Bool} {m : List UInt8}
-    (h : cursorShapeRect v s r = some (s', m)) :
+theorem cursorShapeRect_scr {v : Variant} {s s' : Screen} {w : Wire} {r : Bool} {m : List UInt8}
+    (h : cursorShapeRect v s w r = some (s', m)) :
     s'.fb = s.fb ∧ s'.under = s.under ∧ s'.w = s.w ∧ s'.h = s.h ∧ s'.bpp = s.bpp ∧ s'.fmt = s.fmt ∧
     s'.curX = s.curX ∧ s'.curY = s.curY := by
   unfold cursorShapeRect at h
